@@ -435,6 +435,64 @@ func runC20(c *core.Ctx, idx int) {
 			c.Sample(map[string]any{"query": text, "referenced": rs})
 		}
 	}
+	// filters whose answer does not depend on the symbol's value (an empty range, a contradiction, a tautology) still
+	// reference the symbol
+	for _, tc := range []struct{ sym, text string }{
+		{"ibig", `ibig between 10 and 1`}, {"ism", `ism not between 7 and -1 or s = "a"`}, {"ibig", `s = "a" and ibig between 5 and -5`}, {"ibig", `ibig in [1] and ibig in [2]`},
+		{"flt", `flt between 2.5 and 0.5`}, {"ibig", `ibig = 1 and ibig != 1`}, {"b", `b = true or b = false or b = null`}, {"ism", `not (ism between 3 and 1)`}, {"t", `t between datetime(2021-01-01T00:00:00Z) and datetime(2020-01-01T00:00:00Z)`},
+	} {
+		for _, private := range []bool{true, false} {
+			st := allPublic
+			if private {
+				st = buildC20Store(map[string]bool{tc.sym: true}, nil, false)
+			}
+			fq, err := ast.Parse(st.Store, tc.text)
+			if err != nil {
+				c.Violationf("C20 scripted filter does not parse", tc.text, "%v", err)
+				continue
+			}
+			verr := boltz.ValidateSymbolsArePublic(fq, st.Store)
+			c.Eval()
+			c.Count("filters_independent_of_the_symbols_value", 1)
+			c.Cover("position", "in a filter whose answer does not depend on the symbol")
+			if private {
+				c.Nontrivial("indep", tc.text)
+			}
+			info := map[string]any{"query": tc.text, "non_public": map[bool]string{true: tc.sym, false: ""}[private]}
+			if private && verr == nil {
+				c.Violationf("C20 query referencing a non-public symbol accepted (the filter's answer does not depend on the symbol)", info, "query %q accepted although %q is not public", tc.text, tc.sym)
+			} else if private && errSym(verr) != tc.sym {
+				c.Violationf("C20 rejection names a symbol that is not a referenced non-public one (value-independent filter)", info, "%v", verr)
+			} else if !private && verr != nil {
+				c.Violationf("C20 query over public symbols rejected (value-independent filter)", info, "%v", verr)
+			}
+		}
+	}
+	// one store asked about several queries in a row: the verdict on a query is about that query - a sub-query with a
+	// predicate is another query than the bare set function that was accepted just before
+	{
+		st := buildC20Store(map[string]bool{"s": true}, nil, false)
+		for _, seq := range [][2]string{{`count(peers) >= 0`, `count(from peers where s = "a") >= 0`}, {`isEmpty(peers)`, `isEmpty(from peers where s != null)`}, {`count(tags) > 1`, `count(tags) > 1 and s = "a"`}} {
+			first, err1 := ast.Parse(st.Store, seq[0])
+			second, err2 := ast.Parse(st.Store, seq[1])
+			if err1 != nil || err2 != nil {
+				continue
+			}
+			v1 := boltz.ValidateSymbolsArePublic(first, st.Store)
+			v2 := boltz.ValidateSymbolsArePublic(second, st.Store)
+			c.Eval()
+			c.Count("validations_in_a_row_on_one_store", 1)
+			if v1 != nil {
+				continue // the set itself is not public in this configuration: nothing to compare
+			}
+			c.Nontrivial("row", seq[1])
+			if v2 == nil {
+				c.Violationf("C20 query referencing a non-public symbol accepted after a similar query over public symbols was accepted by the same store", map[string]any{"first": seq[0], "second": seq[1], "non_public": "s"}, "%q accepted", seq[1])
+			} else if errSym(v2) != "s" {
+				c.Violationf("C20 rejection names a symbol that is not a referenced non-public one (validations in a row)", map[string]any{"first": seq[0], "second": seq[1]}, "%v", v2)
+			}
+		}
+	}
 	// sort fields taken over from another query (Query.AdoptSortFields: the caller's default sort put on a user's
 	// filter) are sort fields of the query that is validated
 	for k := 0; k < 4; k++ {
